@@ -92,7 +92,10 @@ func scenarioC18(c *hlib.RunCtx) *hlib.Violation {
 	ow.Close()
 	bucketDir := filepath.Join(root, bname)
 
-	comps := []string{"a", "b", "2024-01-08", "0.5.json", "x.json", "dir", "Z", "1e-05.json", "-1.json", "sub"}
+	comps := []string{"a", "b", "2024-01-08", "0.5.json", "x.json", "dir", "Z", "1e-05.json", "-1.json", "sub",
+		// ordinary components an implementation might treat specially: hidden, with a
+		// space, percent or hash sign, non-ASCII, and long
+		".hidden", "a b", "50%.json", "#1", "é", "日本", strings.Repeat("n", 200)}
 	model := map[string][]byte{}
 	isPrefixConflict := func(name string) bool {
 		for n := range model {
@@ -191,7 +194,29 @@ func scenarioC18(c *hlib.RunCtx) *hlib.Violation {
 				fail("write-failed", "writing %q: %v", name, err)
 				break
 			}
-			w.Write(data)
+			if len(data) > 0 && t.Bool(1, 4) {
+				// binary content of several buffers, written in a few calls
+				big := make([]byte, 5000+t.Draw(70000))
+				for k := range big {
+					big[k] = byte(k*31 + i)
+				}
+				data = big
+				for off, parts := 0, 1+t.Draw(3); off < len(data); {
+					n := (len(data)-off)/parts + 1
+					if off+n > len(data) || parts == 1 {
+						n = len(data) - off
+					}
+					w.Write(data[off : off+n])
+					off += n
+					parts--
+					if parts < 1 {
+						parts = 1
+					}
+				}
+				s.Probe("written-in-several-calls")
+			} else {
+				w.Write(data)
+			}
 			if t.Bool(1, 5) {
 				// a listing taken while this object is being written: whether the
 				// object itself shows up is not judged, every other name is
